@@ -73,6 +73,11 @@ pub(crate) struct MemTable {
 	/// WAL number that was current when this memtable started receiving writes.
 	/// Used to determine which WALs can be safely deleted after flush.
 	wal_number: AtomicU64,
+	/// Upper bound of the arena bytes that batches currently inside `add` may
+	/// still take, the arena capacity, and the arena bytes used when empty.
+	pending_bytes: AtomicU64,
+	capacity: u64,
+	empty_size: u64,
 }
 
 impl Default for MemTable {
@@ -86,10 +91,14 @@ impl MemTable {
 		let arena = Arc::new(Arena::new(arena_capacity));
 		let cmp: Compare = |a, b| a.cmp(b);
 		let skiplist = Skiplist::new(arena, cmp);
+		let empty_size = skiplist.size() as u64;
 		MemTable {
 			skiplist,
 			latest_seq_num: AtomicU64::new(0),
 			wal_number: AtomicU64::new(0),
+			pending_bytes: AtomicU64::new(0),
+			capacity: arena_capacity.min(arena::MAX_ARENA_SIZE) as u64,
+			empty_size,
 		}
 	}
 
@@ -157,7 +166,41 @@ impl MemTable {
 	/// * `starting_seq_num` - The starting sequence number for this batch (records get consecutive
 	///   numbers)
 	pub(crate) fn add(&self, batch: &Batch) -> Result<()> {
-		let highest_seq_num = self.apply_batch_to_memtable(batch)?;
+		// A batch goes in entirely or not at all: running out of arena half-way
+		// would leave a part of the transaction in this memtable, and that part
+		// would later be flushed to a table on its own. So before touching the
+		// skip list, make sure the arena can take the whole batch even if every
+		// node gets a full-height tower, counting what concurrent adders may
+		// still take. (A batch alone in an empty memtable is let through: it
+		// cannot fit anywhere better.)
+		let needed: u64 = batch
+			.entries
+			.iter()
+			.map(|e| {
+				(skiplist::MAX_NODE_SIZE + 8 + e.key.len() + e.value.as_ref().map_or(0, |v| v.len()))
+					as u64
+			})
+			.sum();
+		loop {
+			let pending = self.pending_bytes.fetch_add(needed, Ordering::AcqRel) + needed;
+			let used = self.skiplist.size() as u64;
+			let alone_in_empty = pending == needed && used <= self.empty_size;
+			if used + pending <= self.capacity || alone_in_empty {
+				break;
+			}
+			self.pending_bytes.fetch_sub(needed, Ordering::AcqRel);
+			if used + needed > self.capacity && used > self.empty_size {
+				// Does not fit next to what is already here.
+				return Err(crate::Error::ArenaFull);
+			}
+			// It fits, but only once the adders currently at work (whose upper
+			// bounds are counted in `pending`) are done: let them finish.
+			std::thread::yield_now();
+		}
+
+		let result = self.apply_batch_to_memtable(batch);
+		self.pending_bytes.fetch_sub(needed, Ordering::AcqRel);
+		let highest_seq_num = result?;
 		self.update_latest_sequence_number(highest_seq_num);
 		Ok(())
 	}
